@@ -91,6 +91,17 @@ def unit_c07_sweep():
                     want.append(("E", k) if (k == bad and reported) else r)
                 got = [("E", x.location.line + 1) if isinstance(x, errors.DataError) else x for x in out]
                 if got != want: return {"expected": want, "observed": got}
+                # a second pass with the same Reader sees the same window (row numbers start again at 1)
+                if (h + n + (bad or 0)) % 2 == 0 or ctx.thorough:
+                    dp2 = os.path.join(tmp, "pass2.csv")
+                    with open(dp2, "w", encoding="cp1252", newline="") as f: f.write(text)
+                    rd = validio.Reader(interface.create_cid_from_string(cid_text(h)), dp2, on_error="yield", validate_until=u)
+                    for attempt in (1, 2):
+                        # (the location of a Reader is not rewound by a second pass - row numbers in errors go on counting; only the window is compared)
+                        got2 = ["E" if isinstance(x, errors.DataError) else x for x in rd.rows()]
+                        want2 = ["E" if isinstance(x, tuple) else x for x in want]
+                        if got2 != want2: return {"expected": "pass %d over the same Reader: %r" % (attempt, want2), "observed": got2}
+                    rd.close()
                 # validate-only API
                 cid = interface.create_cid_from_string(cid_text(h))
                 try: validio.validate(cid, io.StringIO(text), validate_until=u); v_obs = False
